@@ -96,9 +96,10 @@ fn real_main() {
                 "pool" => pool::gen_case(&mut crng),
                 "containers" => containers::gen_case(&mut crng),
                 "snapshot" => snapshot::gen_case(&mut crng),
-                "solve" => { let k = *crng.pick(&[gen::Kind::General, gen::Kind::General, gen::Kind::Tight, gen::Kind::Tight, gen::Kind::Hints]); solve::gen_case(&mut crng, k) }
+                "solve" => { let k = *crng.pick(&[gen::Kind::General, gen::Kind::General, gen::Kind::Tight, gen::Kind::Tight, gen::Kind::Hints, gen::Kind::CycleMerge]); solve::gen_case(&mut crng, k) }
                 "soft" => solve::gen_case(&mut crng, gen::Kind::Soft),
                 "lazy" => solve::gen_case(&mut crng, gen::Kind::Lazy),
+                "hints" => solve::gen_case(&mut crng, gen::Kind::Hints),
                 "cancel" => solve::gen_cancel_case(&mut crng),
                 "reuse" => solve::gen_reuse_case(&mut crng, false),
                 "reuse-async" => solve::gen_reuse_case(&mut crng, true),
@@ -124,7 +125,7 @@ fn real_main() {
             "pool" => guarded(move || pool::run_case(&l2)),
             "containers" => vec!["generated-only".to_string()],
             "snapshot" => guarded(move || snapshot::run_case(&l2)),
-            "solve" | "soft" | "conflictfree" | "lazy" | "cancel" | "reuse" | "reuse-async" | "async" | "async-cf" | "amo-solve" => guarded(move || solve::run_case(&l2)),
+            "solve" | "soft" | "conflictfree" | "lazy" | "hints" | "cancel" | "reuse" | "reuse-async" | "async" | "async-cf" | "amo-solve" => guarded(move || solve::run_case(&l2)),
             f => panic!("unknown family {f}"),
         };
         // C06 (in-process part): a second run with fresh solver instances must give identical observations
